@@ -1,6 +1,6 @@
 // Package c32: membership changes keep node IDs and addresses unique, every
 // node has the role it asked for, unresponsive nodes are reaped only after the
-// timeout of their role (DESIGN §6 C32).
+// timeout of their role - and never when that timeout is 0 (DESIGN §6 C32).
 //
 // One worker process per history: up to 4 live in-process nodes (harness A)
 // formed by a plain bootstrap or by a notify-driven bootstrap (real
@@ -30,9 +30,9 @@ func init() {
 
 const (
 	hbTimeout       = 400 * time.Millisecond
-	reapVoter       = 2 * time.Second
-	reapNonVoter    = 6 * time.Second
-	reapSlack       = 2 * hbTimeout // removal may precede cut+timeout by at most this
+	reapShort       = 2 * time.Second // the two reap timeouts a history combines (or 0 = never) ...
+	reapLong        = 6 * time.Second // ... far apart, so that a role mix-up is unmistakable
+	reapSlack       = 2 * hbTimeout   // removal may precede cut+timeout by at most this
 	maxLive         = 4
 	contactAgeLimit = hbTimeout // victim must have heard from the leader this recently before the cut
 )
@@ -80,31 +80,38 @@ type reapRec struct {
 	RemovedMs    float64 `json:"removed_after_ms"` // first leader observation without the entry, relative to the cut/close
 	ContactAgeMs float64 `json:"contact_age_ms"`   // victim's own last-contact age sampled just before the cut (-1 unknown)
 	Removed      bool    `json:"removed"`
-	Cancelled    string  `json:"cancelled,omitempty"` // an operation touched the id/address, or the link was healed
+	Disabled     bool    `json:"role_never_reaped,omitempty"`   // the timeout configured for this role is 0: never remove
+	SurvivedMs   float64 `json:"survived_ms,omitempty"`         // role never reaped: still listed on every leader poll for this long
+	FailedHBs    int64   `json:"failed_heartbeat_observations"` // rqlite's failed_heartbeat_observed counter, delta over the watch (process-wide)
+	ReapedOK     int64   `json:"nodes_reaped_ok"`               // rqlite's nodes_reaped_ok counter, delta over the watch (process-wide)
+	Cancelled    string  `json:"cancelled,omitempty"`           // an operation touched the id/address, or the link was healed
 	By           string  `json:"observed_on,omitempty"`
 	DuringN      int     `json:"during_op"`
 }
 
 type histResult struct {
-	Case        int       `json:"case"`
-	Formation   string    `json:"formation"`
-	FormedMs    float64   `json:"formed_ms"`
-	Ops         []opRec   `json:"ops"`
-	Dups        []dupRec  `json:"dups,omitempty"`
-	Reaps       []reapRec `json:"reaps,omitempty"`
-	Polls       int64     `json:"polls"`
-	PollErrs    int64     `json:"poll_errs"`
-	Distinct    int       `json:"distinct_configs"`
-	MaxEntries  int       `json:"max_entries"`
-	SetupErr    string    `json:"setup_err,omitempty"`
-	FinalCfg    []entry   `json:"final_cfg,omitempty"`
-	BootEntries []entry   `json:"boot_cfg,omitempty"`
+	Case           int       `json:"case"`
+	ReapVoterMs    int64     `json:"reap_timeout_ms"`          // ReapTimeout of every node (0 = never)
+	ReapNonVoterMs int64     `json:"reap_readonly_timeout_ms"` // ReapReadOnlyTimeout of every node (0 = never)
+	Formation      string    `json:"formation"`
+	FormedMs       float64   `json:"formed_ms"`
+	Ops            []opRec   `json:"ops"`
+	Dups           []dupRec  `json:"dups,omitempty"`
+	Reaps          []reapRec `json:"reaps,omitempty"`
+	Polls          int64     `json:"polls"`
+	PollErrs       int64     `json:"poll_errs"`
+	Distinct       int       `json:"distinct_configs"`
+	MaxEntries     int       `json:"max_entries"`
+	SetupErr       string    `json:"setup_err,omitempty"`
+	FinalCfg       []entry   `json:"final_cfg,omitempty"`
+	BootEntries    []entry   `json:"boot_cfg,omitempty"`
 }
 
 func run(c *vf.Ctx) {
-	c.Rule("history = formation (single-node bootstrap, or notify-driven bootstrap of 2-3 nodes with BootstrapExpect = that number, all nodes running cluster.Bootstrapper.Boot concurrently) followed by a seeded state-aware sequence of operations from {join voter/non-voter via Joiner, boot-join via Bootstrapper, re-join same ID at a new address (same data dir) with the same / the other suffrage, new node on a used address while the old entry is still present / after it was removed, new node with a used ID, re-join same ID+address asking for the same / the other suffrage, re-notify, remove via Remover, cut a voter / non-voter off (faultnet) until reaped} on at most 4 live nodes with ReapTimeout=2s, ReapReadOnlyTimeout=6s, heartbeat 400ms; Store.Nodes() of every live node is polled continuously and after every op. non-trivial = history with at least one judged re-join/reuse acknowledgement or one observed automatic removal; distinct by formation + op sequence")
+	c.Rule("history = formation (single-node bootstrap, or notify-driven bootstrap of 2-3 nodes with BootstrapExpect = that number, all nodes running cluster.Bootstrapper.Boot concurrently) followed by a seeded state-aware sequence of operations from {join voter/non-voter via Joiner, boot-join via Bootstrapper, re-join same ID at a new address (same data dir) with the same / the other suffrage, new node on a used address while the old entry is still present / after it was removed, new node with a used ID, re-join same ID+address asking for the same / the other suffrage, re-notify, remove via Remover, cut a voter / non-voter off (faultnet, or kill it) until reaped, or for max(timeout)+4s when its role is never reaped} on at most 4 live nodes, heartbeat 400ms; the reap configuration (ReapTimeout, ReapReadOnlyTimeout) of a history is one of (2s,6s), (2s,0=never), (0=never,2s), (6s,2s), rotated so that the required cut of each role meets each configuration; Store.Nodes() of every live node is polled continuously and after every op. non-trivial = history with at least one judged re-join/reuse acknowledgement, one observed automatic removal, or one observed survival of an unresponsive node whose role is never reaped; distinct by reap configuration + formation + op sequence")
 	c.Assume("a join is 'acknowledged' iff Joiner.Do / Bootstrapper.Boot returned nil; its suffrage is read from a node that was leader before and after the read, right after the ack and again 1 s later; both must differ from the request for a violation")
 	c.Assume("removal time = first poll on which a node that is leader before and after the poll no longer lists the entry (later than the real removal, never earlier); cut time = taken just before the faultnet Isolate / Close call; verdict only if the victim itself had heard from the leader less than one heartbeat timeout before the cut, and no operation touched its ID or address meanwhile")
+	c.Assume("a role whose timeout is 0 is never reaped: an unresponsive entry of that role must stay listed on every poll of a node that is leader before and after the poll, for as long as no operation touches its ID or address (observed for max(timeout)+4s after the cut); any such poll without it is a violation whatever the elapsed time; a survival counts as judged only if rqlite's failed_heartbeat_observed counter advanced meanwhile (the reaper did look)")
 	c.Assume("a refused join (error returned to the joiner) is not an acknowledgement and is not judged")
 	// the duplicate detector itself (raft refuses to build such configurations,
 	// so no live run can show that it works)
@@ -168,7 +175,7 @@ func run(c *vf.Ctx) {
 		return
 	}
 	c.Require(int64(nHist*2/3), nHist/2)
-	if c.Counter("config_observations") < int64(nHist)*200 || c.Counter("join_acks_checked") < int64(nHist) || c.Counter("reaps_judged") == 0 {
+	if c.Counter("config_observations") < int64(nHist)*200 || c.Counter("join_acks_checked") < int64(nHist) || c.Counter("reaps_judged") == 0 || c.Counter("never_reaped_role_watches_judged") == 0 {
 		c.Inconclusive("monitor observed too little")
 		c.Require(1<<40, 1<<30)
 	}
@@ -261,7 +268,33 @@ func judge(c *vf.Ctx, r histResult) {
 			r.Case, o.N, o.Kind, o.ID, o.Addr, o.Want, o.After2.Suffrage, fmtEntry(o.Prev)), map[string]any{"history": small, "op": o})
 	}
 	// 3. automatic removal not before the timeout of the role
+	reapCfgName := fmt.Sprintf("voter=%dms,nonvoter=%dms", r.ReapVoterMs, r.ReapNonVoterMs)
+	c.Count("reap_config:"+reapCfgName, 1)
 	for _, rp := range r.Reaps {
+		if rp.Disabled {
+			// the timeout configured for this role is 0 (never reap): the entry must
+			// stay listed for as long as nothing but the reaper could remove it
+			switch {
+			case rp.Removed && rp.Cancelled == "":
+				bad = true
+				judged++
+				c.Count("reaps_judged", 1)
+				c.Count("never_reaped_role_watches_judged", 1)
+				c.Violation("reap:role-never-reaped:"+rp.Role, fmt.Sprintf("history %d (%s): %s %s (%s) became unresponsive (%s) and disappeared from the leader's configuration %.0f ms later, although the timeout configured for its role is 0 (never reap) and no operation touched its ID or address (rqlite counters between the cut and this poll: nodes_reaped_ok +%d, failed_heartbeat_observed +%d)",
+					r.Case, reapCfgName, rp.Role, rp.ID, rp.Addr, rp.Cause, rp.RemovedMs, rp.ReapedOK, rp.FailedHBs), map[string]any{"history": small, "reap": rp})
+			case rp.SurvivedMs > 0 && rp.FailedHBs > 0:
+				// only counts if the leader's reaper really looked at failed heartbeats meanwhile
+				judged++
+				c.Count("reaps_judged", 1)
+				c.Count("never_reaped_role_watches_judged", 1)
+				c.Count("never_reaped_role_survived:"+rp.Role+":"+rp.Cause, 1)
+			case rp.SurvivedMs > 0:
+				c.Count("never_reaped_role_survived_without_failed_heartbeat_observation", 1)
+			default:
+				c.Count("reap_watch_without_removal_or_cancelled", 1)
+			}
+			continue
+		}
 		if rp.Cancelled != "" || !rp.Removed {
 			c.Count("reap_watch_without_removal_or_cancelled", 1)
 			continue
@@ -283,7 +316,7 @@ func judge(c *vf.Ctx, r histResult) {
 		}
 	}
 	if judged > 0 {
-		c.Nontrivial(r.Formation + "|" + strings.Join(kinds, ","))
+		c.Nontrivial(reapCfgName + "|" + r.Formation + "|" + strings.Join(kinds, ","))
 	}
 	if !bad && r.SetupErr == "" {
 		c.Held(1)
@@ -324,7 +357,11 @@ func replaySpec(f string) string {
 	if err := json.Unmarshal(b, &rf); err != nil {
 		panic(err)
 	}
-	ks := []string{rf.Case.History.Formation}
+	h := rf.Case.History
+	ks := []string{h.Formation}
+	if h.ReapVoterMs != 0 || h.ReapNonVoterMs != 0 { // (replay files written before the reap configuration was recorded have neither)
+		ks = []string{fmt.Sprintf("reap=%d/%d", h.ReapVoterMs, h.ReapNonVoterMs), h.Formation}
+	}
 	for _, o := range rf.Case.History.Ops {
 		if o.Kind != "form" {
 			ks = append(ks, o.Kind)
